@@ -1207,12 +1207,15 @@ class Agent(dbus.service.Object):
     @dbus.service.method(DBUS_IFACE, in_signature='ss', out_signature='')
     def recv_bundle_pop_file(self, bid, filepath):
         bid = int(bid)
-        item = self._rx_queue.pop(bid)
-        item.file.seek(0)
+        item = self._rx_queue[bid]
 
         import shutil
-        out_file = open(filepath, 'wb')
-        shutil.copyfileobj(item.file, out_file)
+        # the transfer stays in the queue unless it could be written out
+        with open(filepath, 'wb') as out_file:
+            item.file.seek(0)
+            shutil.copyfileobj(item.file, out_file)
+
+        del self._rx_queue[bid]
 
     def send_bundle_fileobj(self, file, tx_params):
         ''' Send bundle from a file-like object.
